@@ -70,7 +70,7 @@ fn sample_points(rules: &[PRule], bounds: &[(f64, f64)], g: &mut Gen, cap: usize
         let touching = |e: i64| los.contains(&e) && his.contains(&e);
         let mut c: BTreeSet<i64> = [-(Q as i64), 0, Q as i64].into_iter().filter(|e| !touching(*e)).collect();
         let ks: Vec<i64> = los.union(&his).copied().collect();
-        for e in &ks { c.insert(e - 1); c.insert(e + 1); if !touching(*e) { c.insert(*e); } }
+        for e in &ks { for x in [e - 1, *e, e + 1] { if !touching(x) { c.insert(x); } } }
         for w in ks.windows(2) { c.insert((w[0] + w[1]) / 2); }
         per_axis.push(c.into_iter().map(|v| v as f64 / Q).filter(|v| *v >= bounds[a].0 && *v <= bounds[a].1).collect());
     }
